@@ -291,7 +291,13 @@ def key_case(ctx, case):
                     ctx.violation({'clause': 'key-spend builder refuses flag ff'}, 'accepted')
                 except BaseException:
                     pass
-                continue
+                # the instruction itself has no such restriction: a hand-made signature under the root over the (empty)
+                # message that flag ff selects, carrying flag byte ff
+                xs = F.aggregate_scalars((F.derive_key_from_seed(ks), t))
+                sig_ff = F.sign_with_scalar(xs, m)
+                if not refed.verify_strict(root, m, sig_ff[:64]):
+                    raise AssertionError('hand-made root signature does not verify')
+                w = P(sig_ff[:64] + b'\xff')
             for allowed in sorted({0x00, 0xff, flag, flag ^ 0xff} | {flag & ~(1 << b) & 0xff for b in range(8) if flag >> b & 1}):
                 n += 1
                 lock = T.make_taproot_lock(pub, T.Script.from_bytes(s), sigflags='%02x' % allowed).bytes
